@@ -105,7 +105,9 @@ type vconn struct {
 	closed    bool
 	lazyLeft  int
 	dupFd     int           // descriptor obtained through Conn.Dup (ours to close), 0 if none
-	floodGate chan struct{} // closed when the asynchronous writers have issued all their requests
+	floodGate chan struct{} // closed when the asynchronous writers have issued the requests that are to pile up
+	floodOnce sync.Once
+	floodLeft int32 // writers that have not finished piling up yet
 }
 
 type vhandler struct {
@@ -243,6 +245,7 @@ func (h *vhandler) OnOpen(c Conn) (out []byte, action Action) {
 	// asynchronous writers / wakers are user goroutines holding the Conn
 	if sp.asyncW > 0 || sp.wakes > 0 {
 		vc.asyncLeft = int32(sp.asyncW)
+		vc.floodLeft = int32(sp.asyncW)
 		if sp.wakes > 0 {
 			vc.asyncLeft++
 		}
@@ -338,7 +341,14 @@ func (h *vhandler) asyncWriter(vc *vconn, w int) {
 	defer h.asyncWG.Done()
 	sp := vc.spec
 	rng := vsup.NewRng(sp.seed*31 + uint64(w))
-	for k := 0; k < sp.asyncN; k++ {
+	total := sp.asyncN
+	if sp.flood {
+		total += 40 // ... and goes on issuing while the loop works the pile off (issue order must still hold)
+	}
+	for k := 0; k < total; k++ {
+		if sp.flood && k == sp.asyncN && atomic.AddInt32(&vc.floodLeft, -1) == 0 {
+			vc.floodOnce.Do(func() { close(vc.floodGate) })
+		}
 		body := []int{0, 1, 37, 500, 4000, 20000, 70000}[rng.Intn(7)]
 		if sp.flood {
 			body = rng.Intn(2)
@@ -398,7 +408,7 @@ func (h *vhandler) waker(vc *vconn) {
 // asyncDone: the last asynchronous goroutine of a connection wakes it so that the handler can finish.
 func (h *vhandler) asyncDone(vc *vconn) {
 	if atomic.AddInt32(&vc.asyncLeft, -1) == 0 {
-		close(vc.floodGate)
+		vc.floodOnce.Do(func() { close(vc.floodGate) })
 		a := h.newReq()
 		h.rec.emit("AIssue", "a", a, "c", vc.spec.id, "kind", "Wake", "w", 0, "k", 0, "len", 0, "g", vsup.Goid())
 		sp := vc.spec
